@@ -182,7 +182,12 @@ class SsbGraphMinimizer:
                             # There's no real end, but a loop. TODO: This could lead to real problems...
                             logger.warning("If-Branch ended on a vertex that is not a label...")
                             continue
-                        if e_on_if_bef_end["loop"] or e_on_else_bef_end["loop"]:
+                        if (
+                            e_on_if_bef_end["loop"]
+                            or e_on_else_bef_end["loop"]
+                            or self._goes_back(e_on_if_bef_end)
+                            or self._goes_back(e_on_else_bef_end)
+                        ):
                             # A branch gets there by jumping back: this is the start of a loop around the if,
                             # not the point where the branches join after it.
                             continue
@@ -256,6 +261,14 @@ class SsbGraphMinimizer:
                         self._update_edge_style(else_edge)
                         self._update_edge_style(if_edge)
                         self._update_vertex_style(v)
+
+    @staticmethod
+    def _goes_back(e: Edge) -> bool:
+        """Whether the edge leads to an operation that is not behind its source in the routine (vertices are named v<i>)."""
+        src, tgt = e.source_vertex["name"], e.target_vertex["name"]
+        if src[:1] == "v" and tgt[:1] == "v" and src[1:].isdigit() and tgt[1:].isdigit():
+            return int(tgt[1:]) <= int(src[1:])
+        return False
 
     def group_branches(self) -> None:
         """
